@@ -63,6 +63,18 @@ for f in "${PATCHES[@]}"; do
     sig="$(echo "$out" | grep -m1 '^violation ' | cut -c1-160)"
     if [ $rc -eq 1 ] && echo "$out" | grep -q "^VIOLATION property=$id "; then
       verdict="DETECTED"; pass=$((pass+1))
+      # keep the shrunk counterexample as a hand-kept regression: it must pass on the unchanged tree from now on
+      rp="$(echo "$out" | grep -m1 "^VIOLATION property=$id " | sed 's/.*replay=//')"
+      if [ "$TIER" = quick ] && [ -f "$rp" ]; then
+        python3 - "$rp" "$ROOT/regress/$id-pass-$(echo "$name" | tr '/' '-').json" "$name" <<'PY'
+import json, sys
+src, dst, name = sys.argv[1:4]
+r = json.load(open(src))
+r["detail"] = "counterexample found on the tree with " + name + " applied (must pass on the unchanged tree): " + r.get("detail", "")[:300]
+r["expect"] = "pass"
+json.dump(r, open(dst, "w"), indent=1)
+PY
+      fi
     else
       verdict="MISSED(rc=$rc)"; fail=$((fail+1))
     fi
